@@ -88,6 +88,36 @@ static void h_tcl_drop_peer(void) {
     h_tls_peer = NULL;
     h_tls_peerfd = -1;
 }
+/* `p:<hex>`: the peer makes ONE TLS record of these octets and puts only its first half on the wire; the second half follows when the
+   peer next does something that is not keeping silent (a write, a close). Until then the reader's socket has been readable without
+   any octet of the stream having arrived. */
+static uint8_t *h_tls_pend;
+static int h_tls_pendlen;
+static void h_tls_flush_pending(void) {
+    if (h_tls_pend && h_tls_peerfd >= 0 && write(h_tls_peerfd, h_tls_pend, h_tls_pendlen) != h_tls_pendlen)
+        abort();
+    (free)(h_tls_pend);
+    h_tls_pend = NULL;
+    h_tls_pendlen = 0;
+}
+static void h_tls_write_half(const uint8_t *b, int l) {
+    BIO *mem = BIO_new(BIO_s_mem()), *sock = SSL_get_wbio(h_tls_peer);
+    char *ct;
+    long n;
+    BIO_up_ref(sock);
+    SSL_set0_wbio(h_tls_peer, mem);
+    if (SSL_write(h_tls_peer, b, l) != l)
+        abort();
+    n = BIO_get_mem_data(mem, &ct);
+    if (n < 2)
+        abort();
+    if (write(h_tls_peerfd, ct, n / 2) != n / 2)
+        abort();
+    h_tls_pendlen = (int)(n - n / 2);
+    h_tls_pend = (malloc)(h_tls_pendlen);
+    memcpy(h_tls_pend, ct + n / 2, h_tls_pendlen);
+    SSL_set0_wbio(h_tls_peer, sock); /* (frees the memory BIO) */
+}
 static int h_tls_poll(struct pollfd *fds, nfds_t n, int timeout) {
     if (!h_tls_script && !h_tcl_mode)
         return poll(fds, n, timeout);
@@ -147,6 +177,8 @@ static int h_tls_poll(struct pollfd *fds, nfds_t n, int timeout) {
         }
         {
             char *ev = h_tls_script[h_tls_pos++];
+            if (ev[0] != 't')
+                h_tls_flush_pending();
             if (ev[0] == 'b') { /* a burst: the writes that follow are all made (one TLS record each) before the reader gets to read */
                 int any = 0;
                 while (h_tls_pos < h_tls_nscript && h_tls_script[h_tls_pos][0] == 'w') {
@@ -163,6 +195,17 @@ static int h_tls_poll(struct pollfd *fds, nfds_t n, int timeout) {
                     poll(fds, n, 1000);
                     usleep(2000);
                 }
+                continue;
+            }
+            if (ev[0] == 'p') {
+                int l;
+                uint8_t *b = hx(ev + 2, &l);
+                if (l > 0 && h_tls_peer) {
+                    h_tls_write_half(b, l);
+                    poll(fds, n, 1000);
+                    usleep(1000);
+                }
+                (free)(b);
                 continue;
             }
             if (ev[0] == 'w' || ev[0] == 'W') {
@@ -324,6 +367,9 @@ static int op_tlsstream(int argc, char **argv, FILE *out) {
         }
     }
     h_tls_script = NULL;
+    (free)(h_tls_pend);
+    h_tls_pend = NULL;
+    h_tls_pendlen = 0;
     SSL_free(rd);
     close(sv[0]);
     if (h_tls_peer) {
